@@ -25,15 +25,15 @@ import (
 )
 
 type vfEnv struct {
-	seed     uint64
-	tier     string
-	shard    int
-	nshards  int
-	out      string
-	replay   string
-	prop     string
-	scale    float64
-	only     int // >= 0: run only this case index (replay)
+	seed    uint64
+	tier    string
+	shard   int
+	nshards int
+	out     string
+	replay  string
+	prop    string
+	scale   float64
+	only    int // >= 0: run only this case index (replay)
 }
 
 func vfGetEnv(prop string) *vfEnv {
@@ -137,21 +137,21 @@ type vfResult struct {
 	mu           sync.Mutex
 	env          *vfEnv
 	start        time.Time
-	Property     string            `json:"property"`
-	Shard        int               `json:"shard"`
-	Evaluations  int64             `json:"evaluations"`
-	Distinct     map[string]bool   `json:"-"`
-	DistinctKeys []string          `json:"distinct_keys"`
-	Samples      []any             `json:"samples"`
-	Violations   []vfViolation     `json:"violations"`
-	Inconclusive int64             `json:"inconclusive"`
-	OutOfScope   int64             `json:"out_of_scope"`
-	Counters     map[string]int64  `json:"counters"`
+	Property     string                     `json:"property"`
+	Shard        int                        `json:"shard"`
+	Evaluations  int64                      `json:"evaluations"`
+	Distinct     map[string]bool            `json:"-"`
+	DistinctKeys []string                   `json:"distinct_keys"`
+	Samples      []any                      `json:"samples"`
+	Violations   []vfViolation              `json:"violations"`
+	Inconclusive int64                      `json:"inconclusive"`
+	OutOfScope   int64                      `json:"out_of_scope"`
+	Counters     map[string]int64           `json:"counters"`
 	Sets         map[string]map[string]bool `json:"-"`
-	SetsOut      map[string][]string `json:"sets"`
-	Notes        []string          `json:"notes"`
-	WallS        float64           `json:"wall_s"`
-	Done         bool              `json:"done"`
+	SetsOut      map[string][]string        `json:"sets"`
+	Notes        []string                   `json:"notes"`
+	WallS        float64                    `json:"wall_s"`
+	Done         bool                       `json:"done"`
 	maxSamples   int
 	nviol        int
 }
